@@ -135,6 +135,14 @@ def nontrivial(sc, obs):
 
 
 def run(res):
+    _run_store(res)
+    if getattr(res, "harness_error", None):
+        return
+    n = cluster_part(res)
+    res.coverage["evaluations"] = res.coverage.get("evaluations", 0) + n
+
+
+def _run_store(res):
     c11.run(res, pid=PID, scs_fn=scenarios, nontrivial_fn=nontrivial, extra_pred=bound_pred, shard=3,
             rule="corpus + seeded churn workloads on one store: rounds of overwrite/delete over a fixed key set with equal-sized "
                  "entries (Put on even cases = primary, PutRaw on odd cases = backup/merge path; half of the cases start with cold keys "
@@ -144,5 +152,124 @@ def run(res):
                  "allocated after every compaction; non-trivial = >= 5 rounds in which compaction drained a table")
 
 
+# ---------------------------------------------------------------------------------------------------------------
+# cluster level: the member's own compaction pass (internal/dmap/compaction.go triggerCompaction / doCompaction /
+# callCompactionOnFragment) over primary and backup fragments
+
+CL_CFG = {"members": 2, "replicas": 2, "partitions": 3, "table": 512, "evict_workers": 1}
+
+
+def cluster_churn(rng, sid, rounds):
+    import dmaplib
+    T = CL_CFG["table"]
+    d = "c20c%d" % sid
+    nkeys = rng.choice([6, 10])
+    vlen = rng.choice([40, 70, 100])
+    keys = [dmaplib.hx("k%02d" % j) for j in range(nkeys)]
+    B = 2 * T
+    ops = []
+    for r in range(rounds):
+        written = 0
+        while written < B:
+            k = rng.choice(keys)
+            if rng.random() < 0.15:
+                ops.append({"op": "del", "c": rng.choice(["emb@owner", "cc"]), "d": d, "k": k})
+            else:
+                ops.append({"op": "put", "c": rng.choice(["emb@owner", "cc", "emb@other"]), "d": d, "k": k, "v": dmaplib.hx(chr(65 + r % 26) * vlen)})
+                written += vlen + 40
+        for m in range(CL_CFG["members"]):
+            ops.append({"op": "compactworker", "m": m})
+        ops.append({"op": "stats", "d": d})
+    return {"id": sid, "ops": ops, "_kind": "churn", "_vlen": vlen, "_B": B, "_d": d}
+
+
+def cluster_race(rng, sid):
+    """the compaction pass of every member runs (many tables to drain, so many calls per fragment) while the DMap is destroyed:
+    the pass must come to an end"""
+    import dmaplib
+    d = "c20r%d" % sid
+    keys = [dmaplib.hx("k%03d" % j) for j in range(120)]
+    ops = []
+    for rnd in range(3):
+        for k in keys:
+            ops.append({"op": "put", "c": "emb@owner", "d": d, "k": k, "v": dmaplib.hx("x" * 60 + str(rnd))})
+    ops.append({"op": "compactrace", "d": d, "ms": rng.choice([500, 2000, 5000])})
+    for m in range(CL_CFG["members"]):
+        ops.append({"op": "compactworker", "m": m})
+    return {"id": sid, "ops": ops, "_kind": "race", "_d": d}
+
+
+def judge_cluster(sc, obs):
+    T = CL_CFG["table"]
+    for i, (op, ob) in enumerate(zip(sc["ops"], obs)):
+        if op["op"] in ("compactworker", "compactrace") and ob.get("r") != "ok":
+            return (i, "the compaction pass of a member did not return within %d s%s" % (
+                15 if op["op"] == "compactworker" else 8, " while the DMap was being destroyed" if op["op"] == "compactrace" else ""))
+        if op["op"] in ("put", "del") and ob.get("r") != "ok":
+            return (i, "%s returned %s" % (op["op"], ob.get("r")))
+        if op["op"] == "stats" and sc["_kind"] == "churn":
+            m = sc["_vlen"] + 60           # upper bound of the entry size (key, value, metadata)
+            for st in ob.get("stats") or []:
+                if not st["frags"]:
+                    continue
+                bound = T * (math.ceil(st["inuse"] / (0.6 * T - m)) + st["frags"] * (math.ceil(sc["_B"] / (T - m)) + 3))
+                if st["alloc"] > bound:
+                    return (i, "member %d holds %d bytes in %d tables for %d live bytes of its %s copies after its compaction pass (bound %d)" % (
+                        st["m"], st["alloc"], st["tables"], st["inuse"], "primary" if st["kind"] == "p" else "backup", bound))
+    if len(obs) < len(sc["ops"]):
+        return (len(obs), "scenario aborted")
+    return None
+
+
+def cluster_part(res):
+    import dmaplib
+    scs = []
+    sid = 5000
+    for i in range(3 if res.tier == "quick" else 16):
+        scs.append(cluster_churn(vlib.rng_for(res.seed, PID, "clchurn", i), sid, 30 if res.tier == "quick" else 60))
+        sid += 1
+    for i in range(3 if res.tier == "quick" else 12):
+        scs.append(cluster_race(vlib.rng_for(res.seed, PID, "clrace", i), sid))
+        sid += 1
+    groups = [(CL_CFG, [sc]) for sc in scs]
+    results = dmaplib.run_groups(groups)
+    bad = 0
+    for sc in scs:
+        obs = results[sc["id"]]["obs"]
+        v = judge_cluster(sc, obs)
+        if v:
+            bad += 1
+            if bad <= 3:
+                res.violation({"kind": "impl-violates-property", "part": "cluster", "cluster": CL_CFG,
+                               "scenario": {"ops": sc["ops"][:v[0] + 1], "_kind": sc["_kind"], "_vlen": sc.get("_vlen"), "_B": sc.get("_B")},
+                               "failed_step": v[0], "impl_trace": obs[max(0, v[0] - 3):v[0] + 1],
+                               "predicate": {"name": "bounded allocation of primary and backup copies after the member's compaction pass; the pass ends", "verdict": v[1]},
+                               "seed": res.seed})
+    res.coverage["cluster_level"] = {"scenarios": len(scs), "failures": bad,
+                                     "rule": "2 members, 2 copies, 512-byte tables: overwrite/delete churn on 6-10 keys with the member's REAL compaction pass "
+                                             "(triggerCompaction) after every 2 tables written, Stats of primary and backup copies after each pass against "
+                                             "the closed-form bound; and the pass racing DM.DESTROY (it has to return)"}
+    return len(scs)
+
+
 def replay(res, path):
+    obj0 = json.load(open(path))
+    if obj0.get("part") == "cluster":
+        import dmaplib
+        ok, out = vlib.harness_build()
+        if not ok:
+            raise vlib.CheckError(out)
+        sc = dict(obj0["scenario"], id=0)
+        for attempt in range(3):
+            obs = dmaplib.run_groups([(obj0["cluster"], [sc])])[0]["obs"]
+            v = judge_cluster(sc, obs)
+            if v:
+                print(v[1])
+                print("VIOLATION property=%s replay=%s" % (res.pid, path))
+                return 1
+        return 0
+    return _replay_store(res, path)
+
+
+def _replay_store(res, path):
     return c11.replay(res, path, extra_pred=bound_pred)
